@@ -150,6 +150,27 @@ Theorem C06_sync_windows : forall name spec0 q b ops,
 Proof. exact sync_windows. Qed.
 Print Assumptions C06_sync_windows.
 
+(* reconfiguration quantified over the PREVIOUS TYPE of the schema: for every state of the limiter map in
+   which [name] is not a token bucket (absent -> exempt default, or a limiter of another type in any state),
+   a Sync that makes it tokenBucket(q, b) installs a NEW full bucket: from then on its requests obey all
+   window bounds and the lower bound (also across later sibling-only re-syncs) *)
+Theorem C06_type_change_installs_bucket : forall name u spec q b ops,
+  not_bucket u name -> NoDup (map fst spec) -> alookup name spec = Some (STb q b) ->
+  cfg_std {| qps := q; burst := b |} -> Forall (usync_std name) ops ->
+  let tr := model_tr (rtb_new q b) (map (proj_op name) ops) in
+  urun (usync u spec) name ops = try_decisions tr /\
+  let segs := segments {| qps := q; burst := b |} [] tr in
+  all_segments closed_ok segs = true /\ all_segments open_ok segs = true /\ all_segments lower_ok segs = true.
+Proof. exact type_change_installs_bucket. Qed.
+Print Assumptions C06_type_change_installs_bucket.
+
+(* ... and that hypothesis holds after every effective Sync that gives [name] another type, whatever it was
+   before (in particular a token bucket in any state), and for a new map *)
+Theorem C06_other_type_not_bucket : forall u name spec k, NoDup (map fst spec) ->
+  spec_eqb (uspec u) spec = false -> alookup name spec = Some (SOther k) -> not_bucket (usync u spec) name.
+Proof. exact sync_to_other_not_bucket. Qed.
+Print Assumptions C06_other_type_not_bucket.
+
 (* request level (dispatcher): every request a policy routes to the schema takes one token whatever its kind
    (get, list, create, ..., and what the server calls long running: watch, pods/log, pods/exec, proxy); the
    history is decided like the TryAcquire trace with the same clock readings, satisfies the window bounds and
@@ -262,6 +283,24 @@ Example C06_request_nonvacuous :
   = [(true, 200); (true, 200); (true, 200); (false, 429); (false, 429); (true, 200)]
   /\ cfg_std {| qps := 1; burst := 3 |}.
 Proof. split; [vm_compute; reflexivity|unfold cfg_std, cfg_ok, cap, max_dur, NS; simpl; lia]. Qed.
+
+Open Scope string_scope.
+(* "tb" starts as max-in-flight(2): everything is admitted; changed in place to tokenBucket(1, 4): exactly 4 of
+   the next 7 requests are admitted; to max-in-flight and back: a new full bucket again *)
+Example C06_type_change_nonvacuous :
+  let u := usync ulim_new [("tb", SOther 2); ("mi1", SOther 5)] in
+  not_bucket u "tb" /\
+  urun u "tb" [UTry 0; UTry 0; UTry 0;
+               USync [("tb", STb 1 4); ("mi1", SOther 5)]; UTry 1; UTry 1; UTry 1; UTry 1; UTry 1; UTry 1; UTry 1;
+               USync [("tb", SOther 3); ("mi1", SOther 5)]; UTry 2; UTry 2;
+               USync [("tb", STb 1 4); ("mi1", SOther 5)]; UTry 3; UTry 3; UTry 3; UTry 3; UTry 3]
+  = [true; true; true;  true; true; true; true; false; false; false;  true; true;  true; true; true; true; false].
+Proof.
+  split; [|vm_compute; reflexivity].
+  apply (sync_to_other_not_bucket ulim_new "tb" _ 2); [|reflexivity|reflexivity].
+  repeat (constructor; [simpl; intuition discriminate|]); constructor.
+Qed.
+Close Scope string_scope.
 
 Example C06_resize_nonvacuous :
   let ops := [OTry 0; OTry 0; OResize 10 1; OTry 1; OResize 5 2; OTry 2; OTry 2; OTry 2] in
